@@ -4,7 +4,7 @@
    Run with the output directory as cwd (Coq 8.16 has no output-dir option). *)
 From Coq Require Import Extraction ExtrOcamlBasic.
 From LF Require Import Base.Opcode Base.Num Base.Arena Tree.Build Tree.Flatten
-  Tree.Optimize Eval.Deck Eval.Push Serial.Codec Conc.Refcount.
+  Tree.Optimize Eval.Deck Eval.Push Serial.Codec Conc.Refcount Eval.Deriv Eval.DerivEval.
 
 Extraction Language OCaml.
 Extraction "model.ml"
@@ -14,4 +14,5 @@ Extraction "model.ml"
   walk mk_deck init_slots set_point eval_tape tape_value
   tape_push keep_point keep_interval
   serialize deserialize
-  rc_spec live_count rstep drop alloc.
+  rc_spec live_count rstep drop alloc
+  deriv_at var_partial.
